@@ -395,6 +395,22 @@ def _p_ga(ctx):
     return RealGeneticAlgorithm(ngen=2, pop_size=6), lambda c, o: _soln(o.minimize(world.ebv_problem("real", c.ebv, nobj=1)))
 
 
+@preg("problem.hc")
+def _p_prob_hc(ctx):
+    # a problem object that outlives one optimisation: solved again later with a fresh hill-climber
+    return world.ebv_problem("subset", ctx.ebv, nobj=1), lambda c, o: _soln(SteepestDescentSubsetHillClimber().minimize(o))
+
+
+@preg("problem.ga")
+def _p_prob_ga(ctx):
+    return world.ebv_problem("integer", ctx.ebv, nobj=1), lambda c, o: _soln(IntegerGeneticAlgorithm(ngen=2, pop_size=6).minimize(o))
+
+
+# persistent objects whose documented state does not evolve with use (no progeny counters): these may also have been
+# used in the history that precedes the re-seeding
+PREUSE_OK = ("pt", "pt.deepcopy", "pt.copy", "xconfig", "hillclimber", "ga.real", "select.ebv", "problem.hc", "problem.ga")
+
+
 @preg("select.ebv")
 def _p_sel(ctx):
     p = EBVS.EstimatedBreedingValueSubsetSelection(
